@@ -25,9 +25,11 @@ def main():
         open(os.path.join(d, "b", rel), "w", encoding="utf-8").write(src.replace(old, new))
         p = subprocess.run(["diff", "-u", os.path.join("a", rel), os.path.join("b", rel)], cwd=d, stdout=subprocess.PIPE, text=True)
         env = dict(os.environ, CARGO_NET_OFFLINE="true", CARGO_TARGET_DIR="/tmp/p2mk-target")
-        t = subprocess.run(["cargo", "test", "--offline"], cwd=os.path.join(d, "b"), env=env, stdout=subprocess.PIPE, stderr=subprocess.STDOUT, text=True)
-        builds = "error: could not compile" not in t.stdout
-        passed = "test result: ok" in t.stdout and "FAILED" not in t.stdout
+        t = subprocess.run(["timeout", "-k", "5", "240", "cargo", "test", "--offline"], cwd=os.path.join(d, "b"), env=env, stdout=subprocess.PIPE, stderr=subprocess.STDOUT, text=True)
+        out_txt = t.stdout
+        subprocess.run("for p in $(pgrep -f p2mk-target/debug/deps/p2sh-); do kill -9 $p; done", shell=True)
+        builds = "error: could not compile" not in out_txt
+        passed = "test result: ok" in out_txt and "FAILED" not in out_txt and t.returncode == 0
         out = os.path.join("/verif/mutants", name)
         os.makedirs(out, exist_ok=True)
         open(os.path.join(out, "patch.diff"), "w").write(p.stdout)
